@@ -2,7 +2,7 @@
 import vlib
 from props import sess_common as sc
 
-THEOREMS = ['C17_step', 'C17_run', 'C17_stored', 'C17_only_application', 'C17_finding_batch_tail', 'C17_finding_custom_seqnum']
+THEOREMS = ['C17_step', 'C17_run', 'C17_stored', 'C17_only_application', 'batchX_stored', 'C17X_step', 'C17X_run', 'C17X_stored', 'C17X_only_application', 'C17_finding_batch_tail', 'C17_finding_custom_seqnum']
 KLASS = 'custom-or-no-increment-send'
 
 
@@ -60,12 +60,12 @@ def run(res, replay=None):
     else:
         n = (36, 40) if res.tier == 'quick' else (400, 60)
         w = sc.weights(app=24, batch=22, bbatch=0.6 if res.tier == 'quick' else 1.0, adm=7, app_flags=1, adm_flags=1, restart=5, resend_request=5, in_seq=10, test_request=4,
-                       corrupt=3, too_high=3)
+                       corrupt=3, too_high=3, _ext=0.12)
         lines, _ = sc.generate('C17', res.seed, n[0], n[1], w, persist=('mem', 'file'))
         big = ['new file 1 0 0', 'in ' + sc.frame(sc.hdr('A', 1) + [('98', '0'), ('108', '30')])[0].hex(),
                'bbatch 2000 ' + ' '.join(str(7000 + i) for i in range(46))] + ['get %d' % i for i in range(1, 50)]
         lines = vlib.corpus_lines('C17') + big + lines
-    res.assumptions += ['initiator role, _always_seqnum_assign = false; the bytes of a frame are what the connection passes to send(); stored bytes are what Persister::get(seqnum) returns afterwards (MemoryPersister and FilePersister)',
+    res.assumptions += ['12% of the segments (marked X; modelled by Sess.stepX, theorems C17X_*) add application retransmissions alone and in batches and application sends whose socket write fails, followed by further sends and restarts', 'initiator role, _always_seqnum_assign = false; the bytes of a frame are what the connection passes to send(); stored bytes are what Persister::get(seqnum) returns afterwards (MemoryPersister and FilePersister)',
                         'in the Lean model a frame and its stored copy are the same abstract record; equality of the real bytes is checked by the oracle on every run']
     res.cov['rule'] = ('segments over MemoryPersister / FilePersister: single sends, batches of 1..6, batches of 42..49 orders with 2000-byte Text (beyond the 82240-byte batch buffer), administrative sends and replies, '
                        'resend answers, restarts; after every send `get` of the numbers just used and at the end of each segment `get` of every number')
